@@ -1043,5 +1043,11 @@ pub mod verif {
         pub fn allocated(&self) -> usize {
             self.lb.buf.len()
         }
+
+        /// `LineBuffer::clear`: what `LineBufferReader::new` does when the same
+        /// buffer is handed a new reader (the next file of a worker).
+        pub fn clear(&mut self) {
+            self.lb.clear()
+        }
     }
 }
